@@ -81,6 +81,30 @@ def gen_instance(rng, cls: str) -> dict:
                 items[1][1] = 1
         return {"name": _name(rng), "W": W, "H": H, "items": items,
                 "cls": cls}
+    if cls == "hugebin":
+        # bin area 10^9 .. 10^17 with few small items: area-scaled objective
+        # values beyond 2^53 (and, with enough bins, beyond 2^63)
+        W = int(rng.choice([10 ** 9, 2 ** 31, 10 ** 10, 10 ** 11,
+                            999_999_999_989, 10 ** 12]))
+        H = int(rng.choice([1, 2, 7, 100, 1000, 1000, 10 ** 4, 10 ** 5]))
+        if rng.integers(4) == 0:
+            W, H = H, W
+        items = []
+        left = int(rng.choice([3, 10, 40, 100, 100, 250]))
+        while left > 0:
+            w = int(rng.integers(1, 6))
+            h = int(rng.integers(1, min(min(W, H), 5) + 1))
+            if w > W:
+                w = W
+            r = int(rng.integers(1, left + 1))
+            same = [it for it in items if it[:2] in ([w, h], [h, w])]
+            if same:
+                same[0][2] += r     # same type again: more copies
+            else:
+                items.append([w, h, r])
+            left -= r
+        return {"name": _name(rng), "W": W, "H": H, "items": items,
+                "cls": cls}
     if cls == "twins":
         # repeated items larger than half the bin in both dimensions (each
         # copy needs its own bin) plus fillers that fit beside / above them
